@@ -480,7 +480,7 @@ def work(shard, seed, tier):
     acc = Acc()
     n = 50 if tier == "quick" else 1900
     campaign(acc, case_st(), execute, n, seed * 1000 + shard["i"],
-             budget=Budget(90 if tier == "quick" else 480), shrink_examples=300)
+             budget=Budget(90 if tier == "quick" else 540), shrink_examples=300)
     return acc
 
 
